@@ -24,7 +24,7 @@ import itertools
 from ..astutil import body_without_doc, func_params
 from ..core import AnalysisError, norm, type_vocabulary
 from ..gates import bool_gate, simulate
-from ..minieval import BlockInterp, ModelRaise, Unsupported
+from ..minieval import bind_unbound_defaults, BlockInterp, ModelRaise, Unsupported
 from ..models import MCircuit, MCNF, MIDPool, MSolver
 from ..typetables import MULTI_FANIN, reference_partition
 
@@ -64,6 +64,7 @@ def run_func(repo, qual, env, file=FILE, extra_imports=None):
     e["__imports__"] = imp
     bi = BlockInterp(e, max_steps=200000)
     try:
+        bind_unbound_defaults(fi.node, bi.me.env)
         r = bi.run(body_without_doc(fi.node))
     except ModelRaise as ex:
         return ("raise", ex.kind)
@@ -442,7 +443,9 @@ def run(chk):
         c, types, fanin = make_circuit(spec)
         built = []
 
-        def fake_cnf(circ):
+        def fake_cnf(circ, *more, **options):
+            # (optional arguments a refactoring gives cnf are accepted: this rule is about what construct_solver does with the
+            # formula it gets; what cnf makes of its arguments is decided by the encoding rules and the end-to-end pipeline)
             f, v = MCNF([[9, -9]]), MIDPool()
             for n in sorted(types):
                 v.id(n)
